@@ -68,7 +68,7 @@ ASSUMPTIONS = [
     "special placeholders are demanded where behave documents them (outline name, step names, tags, examples name: features/scenario_outline.parametrized.feature, docs/new_and_noteworthy_v1.2.5); none is placed in doc-strings or step tables",
     "a background whose step NAME carries a placeholder is rendered per row by the builder: demanded then is the same substitution as for outline steps (name, doc-string, table); with a plain step name the statement is silent and both the untouched and the rendered background are accepted",
     "parsed route: if the parser does not deliver a template step as written, that is reported as subcheck 'template-parse' (a parsing matter, C04 territory) and the expansion is judged against the template as parsed",
-    "every generated step table (own and background steps), the template's tables after expansion and the examples tables after table-API histories are read through every read API (iteration, table[i], row.headings, row.items(), row.as_dict(), row[h], row.get(h), h in row, iter/len of a row, Table.__eq__ against a freshly built Table) and must agree with table.headings / row.cells; a row must share the table's headings list object, as parser-built and API-built templates do",
+    "every generated step table (own and background steps), the template's tables after expansion and the examples tables after table-API histories are read through every read API (iteration, table[i], row.headings, row.items(), row.as_dict(), row[h], row.get(h), h in row, iter/len of a row, Table.__eq__ against a freshly built Table) and must agree with table.headings / row.cells (content; that a row shares the list OBJECT of the table is not demanded)",
     "generated scenario name = annotation schema applied to the substituted outline name, row id 'B.R' (1-based block.row) and the examples name",
     "tags are compared as multisets (the statement does not order them); examples-block tags are compared by exact text",
     "placeholders whose column does not exist are 'text without placeholders': left unchanged; tags still carrying one are dropped (documented)",
